@@ -9,7 +9,7 @@ package main
 //                              (`ok`, `slow`), the history ends at the first
 //                              `panic@site`; a history that ends normally appends
 //                              s=<audio codec known>/<video codec known>/<width>/<height>
-//                              (Group.GetStat).  The last output token carries the
+//                              (Group.GetStat) and r=<playing><waiting>.. per rtsp consumer.  The last output token carries the
 //                              largest per-message wall time (not compared).
 //   c05.ts / c05.rtsp / c05.dummy / c05.cls   the components driven directly,
 //                              with a precise observable (see each op).
@@ -48,21 +48,35 @@ type c05Pipe struct {
 	in     []byte
 	closed bool
 	nout   int
+	parked bool // the session's read loop has consumed everything fed so far and sits in Read
 }
 
 func newC05Pipe() *c05Pipe { p := &c05Pipe{}; p.cond = sync.NewCond(&p.mu); return p }
 func (c *c05Pipe) feed(b string) {
 	c.mu.Lock()
 	c.in = append(c.in, b...)
+	c.parked = false
 	c.mu.Unlock()
 	c.cond.Broadcast()
+}
+
+// waitParked: the command loop has handled every request fed so far (its handlers have returned)
+func (c *c05Pipe) waitParked() {
+	c.mu.Lock()
+	defer c.mu.Unlock()
+	for !(c.parked && len(c.in) == 0) && !c.closed {
+		c.cond.Wait()
+	}
 }
 func (c *c05Pipe) Read(b []byte) (int, error) {
 	c.mu.Lock()
 	defer c.mu.Unlock()
 	for len(c.in) == 0 && !c.closed {
+		c.parked = true
+		c.cond.Broadcast()
 		c.cond.Wait()
 	}
+	c.parked = false
 	if len(c.in) == 0 {
 		return 0, io.EOF
 	}
@@ -141,7 +155,8 @@ func c05ParseP(f []string) base.RtmpMsg {
 	return c05MkMsg(uint8(numTok(f[1])), uint32(numTok(f[2])), bytesTok(f[3]))
 }
 
-const c05SlowLimit = time.Second
+// generous: the largest per-message time of a quick run is a few ms; 2 s keeps a > 100x margin on a loaded box
+const c05SlowLimit = 2 * time.Second
 
 func runC05Bcast(cfgTok, evTok string) (out string) {
 	kv := parseKV(cfgTok)
@@ -256,6 +271,7 @@ func runC05Bcast(cfgTok, evTok string) (out string) {
 			r.conn.feed(fmt.Sprintf("PLAY rtsp://h/live/c05 RTSP/1.0\r\nCSeq: %d\r\n\r\n", seq))
 			select {
 			case <-r.obs.playCh:
+				r.conn.waitParked()
 				r.playing = true
 			case <-time.After(10 * time.Second):
 				panic("c05: rtsp PLAY not reached")
@@ -324,6 +340,8 @@ func runC05Bcast(cfgTok, evTok string) (out string) {
 				case <-time.After(10 * time.Second):
 					panic("c05: rtsp DESCRIBE not reached")
 				}
+				// handleDescribe goes on after the observer call (feedSdp: InitWithSdp, stage WriteSdp): wait for it
+				pc.waitParked()
 				tryPlay()
 			}
 		default:
@@ -333,6 +351,19 @@ func runC05Bcast(cfgTok, evTok string) (out string) {
 	// the codec statistics the history left behind (delIn resets them)
 	st := group.GetStat(0)
 	statTok = fmt.Sprintf(" s=%s/%s/%x/%x", tokBool(st.AudioCodec != ""), tokBool(st.VideoCodec != ""), st.VideoWidth, st.VideoHeight)
+	// the rtsp consumers, in join order: stage == ReadPlay, still waiting for a GOP start
+	var rt []string
+	for _, r := range rsubs {
+		if r.sub == nil {
+			rt = append(rt, "??")
+			continue
+		}
+		rt = append(rt, tokBool(r.sub.Stage.Load() == rtsp.SubSessionStageReadPlay)+tokBool(r.sub.ShouldWaitVideoKeyFrame))
+	}
+	if len(rt) == 0 {
+		rt = []string{"-"}
+	}
+	statTok += " r=" + strings.Join(rt, ".")
 	// end of input: Dispose flushes the TS remuxer's audio cache through every TS output
 	group.DelRtmpPubSession(pubSession)
 	finished = true
